@@ -904,8 +904,9 @@ def pipe_source(p):
         stmt = "{% set a, b = " + P + " %}{{ a }}|{{ b }}"
     elif sink == "alias":
         # the copy made by |list is changed through a method call; the original and the identity test are printed
-        stmt = ("{% set c = " + P + "|list %}{% set _ = c.append(9) %}{{ c }}|{{ xs }}|{{ c is sameas xs }}"
-                "{% set _ = c.pop(0) if c %}{{ xs|list|length }}")
+        # (nothing is changed after it was printed: a native sync render converts outputs to str while the template is
+        # still running, render_async afterwards -- finding C09-NATIVE-ORDER)
+        stmt = "{% set c = " + P + "|list %}{% set _ = c.append(9) %}{{ c }}|{{ xs }}|{{ c is sameas xs }}"
     elif sink == "twice":
         stmt = "{% set g = " + P + " %}{{ g|list }}|{{ g|list }}|{{ g|first|default('none') }}"
     elif sink == "for":
